@@ -68,6 +68,23 @@ def repo_hash(subdirs=("",)):
     return h.hexdigest()[:16]
 
 
+def tools_hash():
+    """hash of the framework itself (tools, harness, Coq sources), part of every stage-cache key"""
+    h = hashlib.sha256()
+    for sub, exts in (("tools", (".py", ".sh")), ("harness", (".go", ".mod")), ("coq", (".v",)), ("coq/Properties", (".v",)), ("corpus", (".json", ".go"))):
+        d = os.path.join(VERIF, sub)
+        if not os.path.isdir(d):
+            continue
+        for root, dirs, files in os.walk(d):
+            dirs.sort()
+            for f in sorted(files):
+                if f.endswith(exts):
+                    with open(os.path.join(root, f), "rb") as fh:
+                        h.update(f.encode())
+                        h.update(fh.read())
+    return h.hexdigest()[:10]
+
+
 _built = {}
 
 
